@@ -59,7 +59,7 @@ var modelledFns = map[string]bool{
 	"_to_toml/1": true, "to_toml/1": true, "to_xml/1": true, "_to_json/1": true, "tojson/1": true,
 	"_to_yaml/1": true, "to_yaml/1": true,
 	"intdiv/2": true,
-	"@index/1": true, "@slice/2": true,
+	"@index/1": true, "@slice/2": true, "@bytecolor/1": true,
 }
 
 // functions that cannot be run meaningfully even on the virtual OS (none crash; they are
@@ -450,7 +450,8 @@ func main() {
 	writerOps(o, cfg, hlib.NewRand(cfg.Seed^0x5eed))
 
 	// the pseudo functions for the index / slice syntax on binaries
-	fns = append(fns, fnInfo{name: "@index", arity: 1, src: "syntax"}, fnInfo{name: "@slice", arity: 2, src: "syntax"})
+	fns = append(fns, fnInfo{name: "@index", arity: 1, src: "syntax"}, fnInfo{name: "@slice", arity: 2, src: "syntax"},
+		fnInfo{name: "@bytecolor", arity: 1, src: "direct"})
 
 	var cases []pcase
 	if cfg.Replay != "" {
